@@ -685,7 +685,9 @@ def geterrortext(
         raise
     except BaseException:
         errortext = f"{type(exc).__name__}: {exc}"
-    return errortext
+    # the text is sent as UTF-8: a lone surrogate in it (e.g. a file name from
+    # os.fsdecode in an OSError message) must not make reporting the error fail
+    return errortext.encode("utf-8", "backslashreplace").decode("utf-8")
 
 
 class RemoteError(Exception):
